@@ -635,7 +635,7 @@ class C15(Base):
 
     PIN_SHARE = {"quick": 0.03, "thorough": 0.05}
     #: share of E3 worlds with one task of more than 500 units
-    E3_MANY_UNITS = {"quick": 0.01, "thorough": 0.006}
+    E3_MANY_UNITS = {"quick": 0.01, "thorough": 0.01}
 
     def pinned(self, rng, tier):
         """Engine E3, pinned sweep: two small tasks of one family; for k =
